@@ -13,7 +13,7 @@
   address.  Every access of the modelled code is an 8-byte access through a stack pointer;
   two accesses are taken to overlap iff their addresses are equal.  This is exact when all
   stack pointers are 8-byte aligned (x86-64 psABI; fresh frames are 16-byte aligned by
-  `Ctx.fresh_sp_aligned`, and push/pop/add $8 keep 8-byte alignment).
+  `Ctx.fresh_frame_valid`, `Ctx.swap_keeps_alignment`, and push/pop/add $8 keep 8-byte alignment).
   All address arithmetic is modular 64-bit (`BitVec 64`).
 
   Core Lean only (no Mathlib).
